@@ -560,6 +560,8 @@ def ev(cx, n, env, pc):
         c = ev(cx, n.test, env, pc)
         if c is Poison:
             return Poison
+        if is_int(c):
+            c = c != 0      # python truth of an int
         c = as_bool(c)
         return ite(c, ev(cx, n.body, env, z3.And(pc, c)), ev(cx, n.orelse, env, z3.And(pc, z3.Not(c))))
     if isinstance(n, (ast.ListComp, ast.GeneratorExp)):
